@@ -15,6 +15,8 @@ pub trait ShiftOps: Scheme {
     fn drop_shift(c: &CommOf<Self>) -> Option<CommOf<Self>>;
     /// commitment `c` with the degree-bound part of `from`
     fn borrow_shift(c: &CommOf<Self>, from: &CommOf<Self>) -> Option<CommOf<Self>>;
+    /// commitment `c` with the identity element as degree-bound part
+    fn identity_shift(c: &CommOf<Self>) -> Option<CommOf<Self>>;
     /// does the key refuse bounds above the supported degree already at trim?
     fn bounds_above_supported_ok() -> bool;
     fn any_bound_ok() -> bool {
@@ -33,6 +35,9 @@ where
     fn borrow_shift(c: &marlin_pc::Commitment<E>, from: &marlin_pc::Commitment<E>) -> Option<marlin_pc::Commitment<E>> {
         Some(marlin_pc::Commitment { comm: c.comm, shifted_comm: from.shifted_comm })
     }
+    fn identity_shift(c: &marlin_pc::Commitment<E>) -> Option<marlin_pc::Commitment<E>> {
+        Some(marlin_pc::Commitment { comm: c.comm, shifted_comm: Some(ark_poly_commit::kzg10::Commitment(<E::G1Affine as ark_ec::AffineRepr>::zero())) })
+    }
     fn bounds_above_supported_ok() -> bool {
         true
     }
@@ -50,6 +55,9 @@ where
     fn borrow_shift(_: &CommOf<Self>, _: &CommOf<Self>) -> Option<CommOf<Self>> {
         None
     }
+    fn identity_shift(_: &CommOf<Self>) -> Option<CommOf<Self>> {
+        None
+    }
     fn bounds_above_supported_ok() -> bool {
         false
     }
@@ -63,6 +71,9 @@ impl ShiftOps for IpaS {
     }
     fn borrow_shift(c: &CommOf<Self>, from: &CommOf<Self>) -> Option<CommOf<Self>> {
         Some(ipa_pc::Commitment { comm: c.comm, shifted_comm: from.shifted_comm })
+    }
+    fn identity_shift(c: &CommOf<Self>) -> Option<CommOf<Self>> {
+        Some(ipa_pc::Commitment { comm: c.comm, shifted_comm: Some(ark_ec::AffineRepr::zero()) })
     }
     fn bounds_above_supported_ok() -> bool {
         false
@@ -380,6 +391,47 @@ fn case<S: ShiftOps>(ctx: &mut Ctx, rng: &mut ChaCha20Rng) {
                 ctx.check(!o.is_accept(), "shifted-part-borrowed", "check", desc.clone(), || json!({"outcome": o.json()}));
             } else {
                 ctx.skipped("shifted-parts-swapped", "the two polynomials coincide");
+            }
+        }
+    }
+    // (4) a polynomial of degree above d committed WITHOUT bound and opened honestly as unbounded; the verifier is
+    // shown the same commitment labelled with bound d and a made-up degree-bound part (identity element, or the
+    // part of an honest bounded commitment to another polynomial)
+    let d_small = bounds[0];
+    if d_small < sup && S::identity_shift(tx.c.comms[0].commitment()).is_some() {
+        let udeg = range(rng, d_small + 1, sup);
+        let u = lp::<S>("u", S::gen_poly(&cfg, Shape::Full, udeg, rng), None, hiding);
+        if let Ok(cu) = commit::<S>(&tx.w.ck, std::slice::from_ref(&u), rng.next_u64()) {
+            let uv = u.evaluate(&z);
+            let mut sp = tx.sponge();
+            let mut r = crate::probe::mon_rng(rng.next_u64());
+            let res = crate::rt::attempt(|| {
+                <PcOf<S> as ark_poly_commit::PolynomialCommitment<FOf<S>, POf<S>>>::open(&tx.w.ck, [&u], cu.comms.iter(), &z, &mut sp, cu.states.iter(), Some(&mut r))
+            });
+            if let Ok(upf) = res {
+                let ok = check::<S>(&tx.w.vk, &[&cu.comms[0]], &z, &[uv], &upf, &mut tx.sponge(), 9);
+                let mut d4 = desc.clone();
+                d4["unbounded_degree"] = json!(udeg);
+                d4["presented_bound"] = json!(d_small);
+                if ok != Out::Accept {
+                    ctx.violated("positive-control", "check", d4, json!({"outcome": ok.json(), "transcript": "unbounded"}));
+                } else if uv.is_zero() || zf.is_zero() {
+                    ctx.skipped("unbounded-transcript-under-bound", "u(z) = 0 or z = 0: the bound identity holds trivially at this point");
+                } else {
+                    let forged = [
+                        ("identity", S::identity_shift(cu.comms[0].commitment())),
+                        ("borrowed", S::borrow_shift(cu.comms[0].commitment(), tx.c.comms[1].commitment())),
+                    ];
+                    for (how, fc) in forged {
+                        if let Some(fc) = fc {
+                            let lc: LComm<S> = LabeledCommitment::new("u".into(), fc, Some(d_small));
+                            let o = check::<S>(&tx.w.vk, &[&lc], &z, &[uv], &upf, &mut tx.sponge(), 10);
+                            let mut dj = d4.clone();
+                            dj["degree_bound_part"] = json!(how);
+                            ctx.check(!o.is_accept(), "unbounded-transcript-under-bound", "check", dj, || json!({"outcome": o.json()}));
+                        }
+                    }
+                }
             }
         }
     }
